@@ -123,11 +123,30 @@ fn violation_json(case: &str, v: &Violation) -> Json {
         .with("program", Json::s(v.program.clone()))
 }
 
-/// Worker: run the cases of this shard, write a summary JSON.
-pub fn worker_main(check: &dyn Check, tier: Tier, seed: u64, shard: usize, nshards: usize, outdir: &Path) {
+fn write_summary(path: &Path, merged: &Merged) {
+    let j = Json::obj()
+        .with("cases", Json::Int(merged.cases as i64))
+        .with("counters", Json::from_map(&merged.counters))
+        .with("distinct", Json::Arr(merged.distinct.iter().map(|d| Json::s(format!("{:x}", d))).collect()))
+        .with("samples", Json::Arr(merged.samples.clone()))
+        .with("inconclusive", Json::strs(merged.inconclusive.clone()));
+    let tmp = path.with_extension("tmp");
+    if std::fs::write(&tmp, j.to_string()).is_ok() {
+        let _ = std::fs::rename(&tmp, path);
+    }
+}
+
+/// Worker: run the cases of this shard. Violations are appended to `violations-<shard>.jsonl`
+/// as soon as they are found; counters are flushed to `worker-<shard>-<part>.json` every few
+/// hundred cases and at the end, so that an abort of the process loses at most the case in
+/// progress. `skip_through` = case id after which to resume (restart after an abort).
+pub fn worker_main(check: &dyn Check, tier: Tier, seed: u64, shard: usize, nshards: usize, outdir: &Path, part: usize, skip_through: Option<String>) {
     let progress = outdir.join(format!("progress-{}.txt", shard));
-    let summary = outdir.join(format!("worker-{}.json", shard));
+    let summary = outdir.join(format!("worker-{}-{}.json", shard, part));
+    let vio_path = outdir.join(format!("violations-{}.jsonl", shard));
     let mut merged = Merged::default();
+    let mut skipping = skip_through.is_some();
+    let mut last_flush = Instant::now();
     for g in check.gens() {
         let n = match tier {
             Tier::Quick => g.quick,
@@ -138,6 +157,12 @@ pub fn worker_main(check: &dyn Check, tier: Tier, seed: u64, shard: usize, nshar
                 continue;
             }
             let case_id = format!("{}:{}", g.name, index);
+            if skipping {
+                if Some(&case_id) == skip_through.as_ref() {
+                    skipping = false;
+                }
+                continue;
+            }
             let _ = std::fs::write(&progress, format!("CASE-BEGIN {}\n", case_id));
             let out = check.run_case(g.name, seed, index, tier);
             merged.cases += 1;
@@ -152,8 +177,12 @@ pub fn worker_main(check: &dyn Check, tier: Tier, seed: u64, shard: usize, nshar
                     merged.samples.push(s);
                 }
             }
-            for v in out.violations {
-                merged.violations.push((case_id.clone(), v));
+            if !out.violations.is_empty() {
+                if let Ok(mut f) = std::fs::OpenOptions::new().create(true).append(true).open(&vio_path) {
+                    for v in out.violations.iter() {
+                        let _ = writeln!(f, "{}", violation_json(&case_id, v).to_string());
+                    }
+                }
             }
             for r in out.inconclusive {
                 if merged.inconclusive.len() < 50 {
@@ -161,17 +190,14 @@ pub fn worker_main(check: &dyn Check, tier: Tier, seed: u64, shard: usize, nshar
                 }
                 bump_by(&mut merged.counters, "cases_inconclusive", 1);
             }
+            if last_flush.elapsed() > Duration::from_secs(4) {
+                write_summary(&summary, &merged);
+                last_flush = Instant::now();
+            }
         }
     }
+    write_summary(&summary, &merged);
     let _ = std::fs::write(&progress, "DONE\n");
-    let j = Json::obj()
-        .with("cases", Json::Int(merged.cases as i64))
-        .with("counters", Json::from_map(&merged.counters))
-        .with("distinct", Json::Arr(merged.distinct.iter().map(|d| Json::s(format!("{:x}", d))).collect()))
-        .with("samples", Json::Arr(merged.samples.clone()))
-        .with("violations", Json::Arr(merged.violations.iter().map(|(c, v)| violation_json(c, v)).collect()))
-        .with("inconclusive", Json::strs(merged.inconclusive.clone()));
-    std::fs::write(&summary, j.to_string()).expect("write worker summary");
 }
 
 fn load_known(property: &str) -> Vec<(String, String)> {
@@ -211,54 +237,55 @@ pub fn run_check(check: &dyn Check, opts: &RunOpts) -> i32 {
     let _ = std::fs::remove_dir_all(&outdir);
     std::fs::create_dir_all(&outdir).expect("create out dir");
     let nshards = check.shards(opts.tier);
+    let spawn = |shard: usize, part: usize, skip: Option<&str>| {
+        let log = std::fs::OpenOptions::new().create(true).append(true).open(outdir.join(format!("worker-{}.log", shard))).expect("log");
+        let mut cmd = Command::new(&opts.exe);
+        cmd.arg("worker").arg(id).arg(opts.tier.name()).arg(opts.seed.to_string()).arg(shard.to_string()).arg(nshards.to_string()).arg(&outdir).arg(part.to_string());
+        if let Some(s) = skip {
+            cmd.arg(s);
+        }
+        cmd.stdin(Stdio::null()).stdout(Stdio::from(log.try_clone().expect("clone"))).stderr(Stdio::from(log)).spawn().expect("spawn worker")
+    };
     let mut children = vec![];
     for shard in 0..nshards {
-        let log = std::fs::File::create(outdir.join(format!("worker-{}.log", shard))).expect("log");
-        let child = Command::new(&opts.exe)
-            .arg("worker")
-            .arg(id)
-            .arg(opts.tier.name())
-            .arg(opts.seed.to_string())
-            .arg(shard.to_string())
-            .arg(nshards.to_string())
-            .arg(&outdir)
-            .stdin(Stdio::null())
-            .stdout(Stdio::from(log.try_clone().expect("clone")))
-            .stderr(Stdio::from(log))
-            .spawn()
-            .expect("spawn worker");
-        children.push((shard, child));
+        children.push((shard, spawn(shard, 0, None)));
     }
     let watchdog = match opts.tier {
-        Tier::Quick => Duration::from_secs(900),
-        Tier::Thorough => Duration::from_secs(3 * 3600),
+        Tier::Quick => Duration::from_secs(1500),
+        Tier::Thorough => Duration::from_secs(5 * 3600),
     };
     let mut merged = Merged::default();
     let mut harness_problems: Vec<String> = vec![];
-    for (shard, mut child) in children {
-        let status = loop {
-            match child.try_wait() {
-                Ok(Some(st)) => break Some(st),
-                Ok(None) => {
-                    if t0.elapsed() > watchdog {
-                        let _ = child.kill();
-                        let _ = child.wait();
-                        break None;
+    let mut crash_restarts = 0usize;
+    for (shard, first_child) in children {
+        let mut child = first_child;
+        let mut part = 0usize;
+        loop {
+            let status = loop {
+                match child.try_wait() {
+                    Ok(Some(st)) => break Some(st),
+                    Ok(None) => {
+                        if t0.elapsed() > watchdog {
+                            let _ = child.kill();
+                            let _ = child.wait();
+                            break None;
+                        }
+                        std::thread::sleep(Duration::from_millis(20));
                     }
-                    std::thread::sleep(Duration::from_millis(20));
+                    Err(_) => break None,
                 }
-                Err(_) => break None,
-            }
-        };
-        let progress = std::fs::read_to_string(outdir.join(format!("progress-{}.txt", shard))).unwrap_or_default();
-        match status {
-            Some(st) if st.success() => {}
-            Some(st) => {
-                // abnormal death: attribute to the case in progress and re-run it alone
-                let case = progress.trim().strip_prefix("CASE-BEGIN ").unwrap_or("").to_string();
-                if case.is_empty() {
-                    harness_problems.push(format!("worker {} died ({}) outside any case", shard, st));
-                } else {
+            };
+            let progress = std::fs::read_to_string(outdir.join(format!("progress-{}.txt", shard))).unwrap_or_default();
+            match status {
+                Some(st) if st.success() => break,
+                Some(st) => {
+                    // abnormal death: attribute to the case in progress, re-run it alone, then
+                    // resume the shard after that case
+                    let case = progress.trim().strip_prefix("CASE-BEGIN ").unwrap_or("").to_string();
+                    if case.is_empty() {
+                        harness_problems.push(format!("worker {} died ({}) outside any case", shard, st));
+                        break;
+                    }
                     let parts: Vec<&str> = case.splitn(2, ':').collect();
                     let rerun = Command::new(&opts.exe)
                         .arg("case")
@@ -277,62 +304,78 @@ pub fn run_check(check: &dyn Check, opts: &RunOpts) -> i32 {
                                 case.clone(),
                                 Violation {
                                     monitor: "M-crash".into(),
-                                    signature: format!("process abort in case {}", case),
-                                    message: format!("worker process died abnormally ({}) while running this case, reproducibly ({})", st, st2),
+                                    signature: format!("process abort ({}) while solving", st2),
+                                    message: format!("worker process died abnormally ({}) while running this case, reproducibly ({}); replay with: pvcheck case {} {} {} {} {}", st, st2, id, opts.tier.name(), opts.seed, parts[0], parts.get(1).copied().unwrap_or("0")),
                                     program: case.clone(),
                                 },
                             ));
                         }
                         _ => harness_problems.push(format!("worker {} died ({}) in case {} but the case did not reproduce the abort", shard, st, case)),
                     }
-                    harness_problems.push(format!("worker {} aborted; cases after {} in that shard were not run", shard, case));
+                    crash_restarts += 1;
+                    if crash_restarts > 6 {
+                        harness_problems.push(format!("too many worker aborts; shard {} not resumed after {}", shard, case));
+                        break;
+                    }
+                    part += 1;
+                    child = spawn(shard, part, Some(&case));
+                }
+                None => {
+                    harness_problems.push(format!("worker {} exceeded the wall-clock watchdog (case in progress: {})", shard, progress.trim()));
+                    break;
                 }
             }
-            None => harness_problems.push(format!("worker {} exceeded the wall-clock watchdog (case in progress: {})", shard, progress.trim())),
         }
-        let summary = outdir.join(format!("worker-{}.json", shard));
-        if let Ok(s) = std::fs::read_to_string(&summary) {
-            match Json::parse(&s) {
-                Ok(j) => {
-                    merged.cases += j.get("cases").and_then(|x| x.as_i64()).unwrap_or(0) as u64;
-                    if let Some(Json::Obj(items)) = j.get("counters") {
-                        for (k, v) in items {
-                            bump_by(&mut merged.counters, k, v.as_i64().unwrap_or(0) as u64);
+        for p in 0..=part {
+            let summary = outdir.join(format!("worker-{}-{}.json", shard, p));
+            if let Ok(s) = std::fs::read_to_string(&summary) {
+                match Json::parse(&s) {
+                    Ok(j) => {
+                        merged.cases += j.get("cases").and_then(|x| x.as_i64()).unwrap_or(0) as u64;
+                        if let Some(Json::Obj(items)) = j.get("counters") {
+                            for (k, v) in items {
+                                bump_by(&mut merged.counters, k, v.as_i64().unwrap_or(0) as u64);
+                            }
                         }
-                    }
-                    if let Some(arr) = j.get("distinct").and_then(|x| x.as_arr()) {
-                        for d in arr {
-                            if let Some(s) = d.as_str() {
-                                if let Ok(h) = u64::from_str_radix(s, 16) {
-                                    merged.distinct.insert(h);
+                        if let Some(arr) = j.get("distinct").and_then(|x| x.as_arr()) {
+                            for d in arr {
+                                if let Some(s) = d.as_str() {
+                                    if let Ok(h) = u64::from_str_radix(s, 16) {
+                                        merged.distinct.insert(h);
+                                    }
+                                }
+                            }
+                        }
+                        if let Some(arr) = j.get("samples").and_then(|x| x.as_arr()) {
+                            for s in arr {
+                                if merged.samples.len() < 5 {
+                                    merged.samples.push(s.clone());
+                                }
+                            }
+                        }
+                        if let Some(arr) = j.get("inconclusive").and_then(|x| x.as_arr()) {
+                            for r in arr {
+                                if merged.inconclusive.len() < 50 {
+                                    merged.inconclusive.push(r.as_str().unwrap_or("").to_string());
                                 }
                             }
                         }
                     }
-                    if let Some(arr) = j.get("samples").and_then(|x| x.as_arr()) {
-                        for s in arr {
-                            if merged.samples.len() < 5 {
-                                merged.samples.push(s.clone());
-                            }
-                        }
-                    }
-                    if let Some(arr) = j.get("violations").and_then(|x| x.as_arr()) {
-                        for v in arr {
-                            let g = |k: &str| v.get(k).and_then(|x| x.as_str()).unwrap_or("").to_string();
-                            merged.violations.push((g("case"), Violation { monitor: g("monitor"), signature: g("signature"), message: g("message"), program: g("program") }));
-                        }
-                    }
-                    if let Some(arr) = j.get("inconclusive").and_then(|x| x.as_arr()) {
-                        for r in arr {
-                            if merged.inconclusive.len() < 50 {
-                                merged.inconclusive.push(r.as_str().unwrap_or("").to_string());
-                            }
-                        }
-                    }
+                    Err(e) => harness_problems.push(format!("worker {} summary unreadable: {}", shard, e)),
                 }
-                Err(e) => harness_problems.push(format!("worker {} summary unreadable: {}", shard, e)),
             }
         }
+        if let Ok(text) = std::fs::read_to_string(outdir.join(format!("violations-{}.jsonl", shard))) {
+            for line in text.lines() {
+                if let Ok(v) = Json::parse(line) {
+                    let g = |k: &str| v.get(k).and_then(|x| x.as_str()).unwrap_or("").to_string();
+                    merged.violations.push((g("case"), Violation { monitor: g("monitor"), signature: g("signature"), message: g("message"), program: g("program") }));
+                }
+            }
+        }
+    }
+    if crash_restarts > 0 {
+        bump_by(&mut merged.counters, "worker_aborts_resumed", crash_restarts as u64);
     }
     check.finish(&mut merged, opts.tier);
 
